@@ -20,6 +20,48 @@ def _all_const(args):
     return all(is_const(a) for a in args)
 
 
+def _bounds(v):
+    """(lower, upper) terms of a value where a range fact is known, else (None, None)."""
+    if isinstance(v, App) and v.fn in ("count_lt", "count_le", "count_ge", "count_gt") and v.args:
+        return Const(0), App("len", (v.args[0],))
+    if is_const(v):
+        return v, v
+    p = to_poly(v)
+    if p is not None and not p.is_const():
+        # ceil(x) - x  /  x - floor(x)
+        for a in p.atoms():
+            if isinstance(a, App) and a.fn in ("ceil", "floor") and len(a.args) == 1:
+                x = to_poly(a.args[0])
+                if x is None:
+                    continue
+                want = (Poly.atom(a) - x) if a.fn == "ceil" else (x - Poly.atom(a))
+                if not (p - want).t:
+                    return Const(0), Const(1)
+    return None, None
+
+
+def _leq(a, b):
+    """a <= b for all values (from range facts only)."""
+    _la, ua = _bounds(a)
+    lb, _ub = _bounds(b)
+    if ua is not None and (ua.key == b.key):
+        return True          # count <= len(X)
+    if isinstance(a, App) and a.fn.startswith("count_") and a.args:
+        try:
+            from .libmodel import length
+            from .terms import same
+            L = length(None, a.args[0])
+            if L is not None and hasattr(L, "key") and (L.key == b.key or same(L, b)):
+                return True  # count <= len(X), with len(X) in the library model's normal form
+        except Exception:  # noqa: BLE001
+            pass
+    if lb is not None and (lb.key == a.key) and not is_const(b):
+        return True          # 0 <= count
+    if ua is not None and lb is not None and is_const(ua) and is_const(lb) and Fraction(const_of(ua)) <= Fraction(const_of(lb)) and not (is_const(a) and is_const(b)):
+        return True
+    return False
+
+
 def mk_app(fn, args=(), kw=()):
     args = list(args)
     kw = list(kw)
@@ -51,6 +93,17 @@ def mk_app(fn, args=(), kw=()):
             vals = [Fraction(const_of(c)) for c in consts]
             c = min(vals) if fn == "min" else max(vals)
             rest.append(Const(c))
+        # range facts: counting atoms lie in [0, len(X)], ceil(x) - x and x - floor(x) in [0, 1]:
+        # an operand that is provably dominated drops out (clipping a value to a range it is already in)
+        if len(rest) > 1:
+            keep = list(rest)
+            for a in rest:
+                for b in rest:
+                    if a is b or a not in keep or b not in keep:
+                        continue
+                    if _leq(a, b):           # a <= b always
+                        keep.remove(b if fn == "min" else a)
+            rest = keep
         if len(rest) == 1:
             return rest[0]
         return App(fn, sorted(rest, key=lambda v: v.key))
